@@ -62,12 +62,12 @@ class GetLBAStatus(SCSICommand):
         result = {}
         _data = data[8 : scsi_ba_to_int(data[:4]) + 4]
         _lbas = []
-        while len(_data):
+        # by position, see ReportLuns.unmarshall_datain
+        for _pos in range(0, len(_data), 16):
             _r = {}
-            decode_bits(_data[:16], cls._datain_bits, _r)
+            decode_bits(_data[_pos : _pos + 16], cls._datain_bits, _r)
 
             _lbas.append(_r)
-            _data = _data[16:]
 
         result.update({"lbas": _lbas})
         return result
